@@ -14,7 +14,9 @@ EXPLANATION = (
 DECIDED = ["R08a insert_edge fails without effect on a missing endpoint (DOM)",
            "R08b node removal cascades to all incident edges and their values (MUST)",
            "R08c properties die with the element (post-dominance, inter-procedural one level)",
-           "R08d sign discipline of ids (TABLE)"]
+           "R08d sign discipline of ids (TABLE)",
+           "R08b (cont.) node_edges filters nothing but self-loops",
+           "R08e a freed graph slot is fully reset"]
 UNDECIDED = ["adjacency-list unlinking and free-slot stack correctness over histories (pointer arithmetic)",
              "counts matching the abstract graph (needs execution)"]
 
